@@ -94,6 +94,7 @@ func (x *ChanCaster[C, V]) Send(value V) int {
 	for range receivers {
 		verifAt("caster.send.send", x, 0)
 		x.C <- value // may end up received by negative Add calls
+		verifAt("caster.after.passed1", nil, 0)
 	}
 
 	// now, we can retrieve, validate, then reset the state (to 0 - all broadcast + we locked so none added)
@@ -190,6 +191,7 @@ func (x *ChanCaster[C, V]) Add(delta int) int {
 				for range delta {
 					verifAt("caster.add.recv", x, 0)
 					<-x.C
+					verifAt("caster.after.passed2", nil, 0)
 				}
 				return int(receivers) // note: already subtracted delta
 			}
